@@ -1,4 +1,5 @@
 import Kdf.Lemmas.ResFn
+import Kdf.Lemmas.ResAx
 /-!
 # C15 — every path gives back what it took
 
@@ -248,6 +249,193 @@ theorem session_balanced (cfg : Cfg) (pages : Nat → PageInfo) (cs : List Call)
         exact Runs.append (hp.perm_left hperm.symm) (ih _ _ _)
       · exact ih _ _ _
 
+
+/-! ## `fcache_get_fb` and the Xen table scan -/
+
+/-- `fcache_get_fb`: success holds the returned entry — nothing when the data
+went to the bounce buffer (the entry looked up first has been released) —,
+every failure (lookup, or any round of the read into the bounce buffer) holds nothing -/
+theorem fcacheGetFb_balanced (cfg : Cfg) (pol : Policy) (fidx pos sz : Nat) (orc : List Ext) (L : List Res) :
+    Runs (fcacheGetFb cfg pol fidx pos sz orc).evs L
+      ((match (fcacheGetFb cfg pol fidx pos sz orc).res with
+        | .ok (r, _) => fbRes r
+        | _ => []) ++ L) := by
+  have h := fcacheGetFb_runs cfg pol fidx pos sz orc L
+  cases hr : (fcacheGetFb cfg pol fidx pos sz orc).res with
+  | ok rp => obtain ⟨r, p⟩ := rp; rw [hr] at h; simpa [gainFb] using h
+  | err s => rw [hr] at h; simpa [gainFb] using h
+  | stuck => rw [hr] at h; simpa [gainFb] using h
+
+/-- get followed by `fcache_put` returns to the start ledger, bounce buffer or not -/
+theorem fcacheGetFb_roundtrip (cfg : Cfg) (pol : Policy) (fidx pos sz : Nat) (orc : List Ext) (L : List Res)
+    (r : Option Fce) (p : Policy) (h : (fcacheGetFb cfg pol fidx pos sz orc).res = .ok (r, p)) :
+    Runs ((fcacheGetFb cfg pol fidx pos sz orc).evs ++ fcachePut r) L L := by
+  have hg := fcacheGetFb_runs cfg pol fidx pos sz orc L
+  rw [h] at hg
+  exact Runs.append (by simpa [gainFb] using hg) (fcachePut_runs r L)
+
+/-- the table scan of `make_xen_pfn_map_auto/_nonauto`: whatever the alignment of
+the table (any number of records straddling entry boundaries), whichever read
+fails and whichever record is rejected, the scan ends holding nothing.
+
+The hypothesis `hns` is needed: when the oracle does not fit the calls the model
+answers `stuck` with an EMPTY trace (see the header of `Kdf.Model.Res`), so the
+entry `st.cur` the scan started with is still held — without `hns` the
+statement is false (`xenMapScan_stuck_keeps` below is the counterexample). -/
+theorem xenMapScan_balanced (cfg : Cfg) (entsz : Nat) (addOk : Nat → Bool) (n k : Nat) (pol : Policy) (pos : Nat)
+    (st : ScanSt) (orc : List Ext) (L : List Res)
+    (hns : (xenMapScan cfg entsz addOk n k pol pos st orc).res ≠ .stuck) :
+    Runs (xenMapScan cfg entsz addOk n k pol pos st orc).evs (fbRes st.cur ++ L) L := by
+  have h := xenMapScan_runs cfg entsz addOk n k pol pos st orc L
+  cases hr : (xenMapScan cfg entsz addOk n k pol pos st orc).res with
+  | ok p => rw [hr] at h; simpa [scanLeft] using h
+  | err s => rw [hr] at h; simpa [scanLeft] using h
+  | stuck => exact absurd hr hns
+
+/-- the same for every outcome, `stuck` included: a stuck scan has done nothing,
+so it still holds the entry it started with — and only then is anything held -/
+theorem xenMapScan_balanced_total (cfg : Cfg) (entsz : Nat) (addOk : Nat → Bool) (n k : Nat) (pol : Policy) (pos : Nat)
+    (st : ScanSt) (orc : List Ext) (L : List Res) :
+    Runs (xenMapScan cfg entsz addOk n k pol pos st orc).evs (fbRes st.cur ++ L)
+      ((match (xenMapScan cfg entsz addOk n k pol pos st orc).res with
+        | .stuck => fbRes st.cur
+        | _ => []) ++ L) := by
+  have h := xenMapScan_runs cfg entsz addOk n k pol pos st orc L
+  cases hr : (xenMapScan cfg entsz addOk n k pol pos st orc).res with
+  | ok p => rw [hr] at h; simpa [scanLeft] using h
+  | err s => rw [hr] at h; simpa [scanLeft] using h
+  | stuck => rw [hr] at h; simpa [scanLeft] using h
+
+/-- a scan that starts with no entry held (as `make_xen_pfn_map_*` does: `fce.cache = NULL`)
+ends holding nothing on every outcome — no hypothesis needed then -/
+theorem xenMapScan_balanced_fresh (cfg : Cfg) (entsz : Nat) (addOk : Nat → Bool) (n k : Nat) (pol : Policy) (pos : Nat)
+    (left : Nat) (orc : List Ext) (L : List Res) :
+    Runs (xenMapScan cfg entsz addOk n k pol pos ⟨none, left⟩ orc).evs L L := by
+  have h := xenMapScan_runs cfg entsz addOk n k pol pos ⟨none, left⟩ orc L
+  cases hr : (xenMapScan cfg entsz addOk n k pol pos ⟨none, left⟩ orc).res with
+  | ok p => rw [hr] at h; simpa [scanLeft, fbRes] using h
+  | err s => rw [hr] at h; simpa [scanLeft, fbRes] using h
+  | stuck => rw [hr] at h; simpa [scanLeft, fbRes] using h
+
+/-! ## libaddrxlat's read cache and the callback records -/
+
+/-- `get_cache_buf`: reuse, eviction, successful or failing fetch — afterwards the
+library holds exactly what the read cache's slots say -/
+theorem getCacheBuf_balanced (cfg : Cfg) (pol : Policy) (rc : RdCache) (as addr : Nat) (pages : Nat → PageInfo)
+    (orc : List Ext) (L : List Res) (hwf : rc.WF) :
+    Runs (getCacheBuf cfg pol rc as addr pages orc).1.evs (rcRes cfg rc.slots ++ L)
+      (rcRes cfg (getCacheBuf cfg pol rc as addr pages orc).2.slots ++ L)
+    ∧ (getCacheBuf cfg pol rc as addr pages orc).2.WF :=
+  getCacheBuf_runs cfg pol rc as addr pages orc L hwf
+
+/-- `cleanup_cache` gives back every page the read cache holds -/
+theorem cleanupCache_balanced (cfg : Cfg) (slots : List (Option Page)) (L : List Res) :
+    Runs (cleanupCache cfg slots) (rcRes cfg slots ++ L) L :=
+  cleanupCache_runs cfg slots L
+
+/-- `addrxlat_ctx_add_cb` holds the new record on success and nothing on failure -/
+theorem ctxAddCb_balanced (cbSize : Nat) (x : AxCtx) (id : Nat) (orc : List Ext) (L : List Res) :
+    Runs (ctxAddCb cbSize x id orc).1.evs (cbRes cbSize x.cbs ++ L) (cbRes cbSize (ctxAddCb cbSize x id orc).2.cbs ++ L)
+    ∧ (ctxAddCb cbSize x id orc).2.rc = x.rc :=
+  ctxAddCb_runs cbSize x id orc L
+
+/-- removing a callback record — the topmost one or one below other records —
+gives back every page of the read cache and the record itself: afterwards no
+page is lent through a record that no longer exists -/
+theorem ctxDelCb_balanced (cfg : Cfg) (cbSize : Nat) (x : AxCtx) (id : Nat) (L : List Res) (h : id ∈ x.cbs) :
+    Runs (ctxDelCb cfg cbSize x id).1 (rcRes cfg x.rc.slots ++ cbRes cbSize x.cbs ++ L)
+      (cbRes cbSize (ctxDelCb cfg cbSize x id).2.cbs ++ L)
+    ∧ rcRes cfg (ctxDelCb cfg cbSize x id).2.rc.slots = []
+    ∧ ((ctxDelCb cfg cbSize x id).2.rc.WF ↔ x.rc.WF) :=
+  ctxDelCb_runs cfg cbSize x id L h
+
+/-- calls on a translation context -/
+inductive AxCall
+  | axread (as addr : Nat)     -- a read through `get_cache_buf`
+  | addcb (id : Nat)
+  | delcb (id : Nat)
+  | read (as addr len : Nat)   -- `kdump_read` in between
+
+/-- a session on a dump's translation context: returns the trace and the context afterwards -/
+def axSession (cfg : Cfg) (cbSize : Nat) (pages : Nat → PageInfo) : List AxCall → Policy → AxCtx → List Ext → List Ev × AxCtx
+  | [], _, x, _ => ([], x)
+  | .axread as addr :: cs, pol, x, orc =>
+      let r := getCacheBuf cfg pol x.rc as addr pages orc
+      let pol' := match r.1.res with
+        | .ok p => p
+        | _ => polAfterErr pol
+      let rest := axSession cfg cbSize pages cs pol' { x with rc := r.2 } r.1.orc
+      (r.1.evs ++ rest.1, rest.2)
+  | .addcb id :: cs, pol, x, orc =>
+      let r := ctxAddCb cbSize x id orc
+      let rest := axSession cfg cbSize pages cs pol r.2 r.1.orc
+      (r.1.evs ++ rest.1, rest.2)
+  | .delcb id :: cs, pol, x, orc =>
+      let r := ctxDelCb cfg cbSize x id
+      let rest := axSession cfg cbSize pages cs pol r.2 orc
+      (r.1 ++ rest.1, rest.2)
+  | .read as addr len :: cs, pol, x, orc =>
+      let out := readLocked cfg pages as len pol addr len orc
+      let pol' := match out.res with
+        | .ok (_, p) => p
+        | _ => polAfterErr pol
+      let rest := axSession cfg cbSize pages cs pol' x out.orc
+      (out.evs ++ rest.1, rest.2)
+
+/-- after any sequence of reads through the read cache, record additions and
+removals (in any order, also of records that are not on top) and plain reads,
+with any outcome of each, the library holds exactly the pages in the read
+cache's slots and the records on the stack -/
+theorem axSession_balanced (cfg : Cfg) (cbSize : Nat) (pages : Nat → PageInfo) (cs : List AxCall) (pol : Policy)
+    (x : AxCtx) (orc : List Ext) (L : List Res) (hwf : x.rc.WF) :
+    Runs (axSession cfg cbSize pages cs pol x orc).1 (rcRes cfg x.rc.slots ++ cbRes cbSize x.cbs ++ L)
+      (rcRes cfg (axSession cfg cbSize pages cs pol x orc).2.rc.slots ++ cbRes cbSize (axSession cfg cbSize pages cs pol x orc).2.cbs ++ L) := by
+  induction cs generalizing pol x orc with
+  | nil => exact Runs.nil _
+  | cons c cs ih =>
+    cases c with
+    | axread as addr =>
+      simp only [axSession]
+      have hg := getCacheBuf_runs cfg pol x.rc as addr pages orc (cbRes cbSize x.cbs ++ L) hwf
+      have h1 := hg.1
+      simp only [← List.append_assoc] at h1
+      exact Runs.append h1 (ih _ _ _ hg.2)
+    | addcb id =>
+      simp only [axSession]
+      have hg := ctxAddCb_runs cbSize x id orc L
+      have h1 := (hg.1.frame (rcRes cfg x.rc.slots)).perm_left
+        (L₂ := rcRes cfg x.rc.slots ++ cbRes cbSize x.cbs ++ L) (by perm_tac)
+      have h2 := h1.perm_right
+        (L'' := rcRes cfg (ctxAddCb cbSize x id orc).2.rc.slots ++ cbRes cbSize (ctxAddCb cbSize x id orc).2.cbs ++ L)
+        (by rw [hg.2]; perm_tac)
+      exact Runs.append h2 (ih _ _ _ (by rw [hg.2]; exact hwf))
+    | delcb id =>
+      simp only [axSession]
+      exact Runs.append (ctxDelCb_runs' cfg cbSize x id L) (ih _ _ _ (ctxDelCb_wf cfg cbSize x id hwf))
+    | read as addr len =>
+      simp only [axSession]
+      exact Runs.append (readLocked_runs cfg pages as len pol addr len orc _) (ih _ _ _ hwf)
+
+/-- a session that ends with a removal: the context is the one the removal leaves -/
+theorem axSession_snoc_delcb (cfg : Cfg) (cbSize : Nat) (pages : Nat → PageInfo) (cs : List AxCall) (pol : Policy)
+    (x : AxCtx) (orc : List Ext) (id : Nat) :
+    (axSession cfg cbSize pages (cs ++ [.delcb id]) pol x orc).2 =
+      (ctxDelCb cfg cbSize (axSession cfg cbSize pages cs pol x orc).2 id).2 := by
+  induction cs generalizing pol x orc with
+  | nil => simp only [List.nil_append, axSession]
+  | cons c cs ih =>
+    cases c <;> simp only [List.cons_append, axSession, ih]
+
+/-- … in particular: once the last record has been removed nothing is lent -/
+theorem axSession_delcb_last (cfg : Cfg) (cbSize : Nat) (pages : Nat → PageInfo) (cs : List AxCall) (pol : Policy)
+    (x : AxCtx) (orc : List Ext) (id : Nat) (hwf : x.rc.WF)
+    (h : id ∈ (axSession cfg cbSize pages cs pol x orc).2.cbs) :
+    rcRes cfg (axSession cfg cbSize pages (cs ++ [.delcb id]) pol x orc).2.rc.slots = [] := by
+  -- `hwf` is not needed: `addrxlat_ctx_del_cb` empties every slot whatever the ring looks like
+  have _ := hwf
+  rw [axSession_snoc_delcb]
+  exact (ctxDelCb_runs cfg cbSize _ id [] h).2.1
+
 /-! ## the hypotheses are satisfiable, the statements are not vacuous -/
 
 def cfg0 : Cfg := ⟨4096, 4194304, 100000, 32, 104, 2, 4096, 16, false, false, true, true⟩
@@ -291,6 +479,47 @@ example : runEvs [.acq .fb 0, .put .fb 0, .put .fb 0] [] = none := by
 /-- a session with a failing and a succeeding `get_page` and a late `put_page` -/
 example : (session cfg0 (fun _ => ⟨none, 0, 0, 0, 0⟩) [.getpage 1 4096, .getpage 1 8192, .read 1 4096 8, .putpage 1 8192]
     .never [] [.alloc true, .entMiss 5, .alloc true, .entHit (some 7), .entBusy]).2 = [] := by
+  decide
+
+
+/-- a 16-byte record 8 bytes before the end of a read-cache entry: the entry is
+released before the bytes are read into the bounce buffer, nothing stays held -/
+example : (fcacheGetFb cfg0 .never 0 4088 16 [.entHit (some 1000), .entHit (some 1000), .entMiss 2000, .io true]).evs =
+    [.acq .fb 0, .put .fb 0, .acq .fb 0, .put .fb 0, .acq .fb 4096, .pread 4096 true, .ins .fb 4096, .put .fb 4096] := by
+  decide
+
+/-- the order of the unrepaired-looking variant (entry released after it was
+re-targeted to the bounce buffer, i.e. never) leaves the entry pinned -/
+example : runEvs [.acq .fb 0, .acq .fb 0, .put .fb 0, .acq .fb 4096, .pread 4096 true, .ins .fb 4096, .put .fb 4096] [] =
+    some [.pin .fb 0] := by
+  decide
+
+/-- a table of three 16-byte records at 4072: the second straddles the boundary -/
+example : runEvs (xenMapScan cfg0 16 (fun _ => true) 3 0 .never 4072 ⟨none, 0⟩
+    [.entHit (some 1000), .entHit (some 1000), .entHit (some 1000), .entHit (some 3000), .entHit (some 3000)]).evs [] = some [] := by
+  decide
+
+/-- why `xenMapScan_balanced` needs `hns`: an entry is held, a record has to be
+fetched, and the oracle has no answer left — the model is `stuck` with an empty
+trace, so the entry is still held and the ledger does not return to `[]` -/
+theorem xenMapScan_stuck_keeps :
+    (xenMapScan cfg0 16 (fun _ => true) 1 0 .never 0 ⟨some ⟨0, 0, .fb, 0⟩, 0⟩ []).evs = [] ∧
+    ¬ Runs (xenMapScan cfg0 16 (fun _ => true) 1 0 .never 0 ⟨some ⟨0, 0, .fb, 0⟩, 0⟩ []).evs
+        (fbRes (some ⟨0, 0, .fb, 0⟩) ++ []) [] := by
+  have h : (xenMapScan cfg0 16 (fun _ => true) 1 0 .never 0 ⟨some ⟨0, 0, .fb, 0⟩, 0⟩ []).evs = [] := by decide
+  refine ⟨h, ?_⟩
+  rw [h]
+  rintro ⟨M, h1, h2⟩
+  simp only [runEvs, fbRes, List.append_nil, Option.some.injEq] at h1
+  subst h1
+  simpa using h2.length_eq
+
+/-- a page fetched through the read cache, a record added on top, the LOWER
+record removed: the page is given back although the removed record is not the top one -/
+example : (axSession cfg0 64 (fun _ => ⟨some 100, 0, 0, 0, 0⟩) [.axread 1 4100, .addcb 1, .delcb 0] .never
+    ⟨rcInit 4, [0]⟩ [.alloc true, .entHit (some 7), .alloc true]) =
+    ([.malloc .pio 104 true, .acq .pc 4097, .malloc .cb 64 true, .put .pc 4097, .free .pio 104, .free .cb 64],
+     ⟨⟨[none, none, none, none], [3, 0, 1, 2]⟩, [1]⟩) := by
   decide
 
 end Kdf.Props.C15
